@@ -195,6 +195,19 @@ pub fn check_unit(
             ck(ctx, "C01", "aux_supplied_bel", r.pwr_aux.value, lo.pwr_aux.value, 1e-15, 0.0, "res aux = unit aux demand (traction)");
         } else if r.pwr_aux.value > lo.pwr_aux.value || r.pwr_aux.value < 0.0 {
             emit(ctx, "C01", "aux_supplied_bel", "C01:aux_supplied_bel", format!("curtailed aux {} outside [0, demand {}]", r.pwr_aux.value, lo.pwr_aux.value), det(si, json!({})));
+        } else {
+            // while braking / coasting the battery serves the auxiliaries up to what its published propulsion limit
+            // leaves once the regenerated power is counted in: the load is curtailed only as far as that limit demands
+            let avail = (r.pwr_prop_out_max.value - e.pwr_elec_prop_in.value).max(0.0);
+            let want = lo.pwr_aux.value.min(avail);
+            obs(ctx, "C01", "obs.aux_supplied_while_braking");
+            if r.pwr_aux.value < lo.pwr_aux.value {
+                obs(ctx, "C01", "obs.aux_curtailed_while_braking");
+            }
+            if !close(r.pwr_aux.value, want, 1e-12, lo.pwr_aux.value) {
+                emit(ctx, "C01", "aux_supplied_bel", "C01:aux_curtailed_without_need", format!("battery serves {} W of the {} W auxiliary load while braking although its published limit {} W and the regenerated {} W leave {} W", r.pwr_aux.value, lo.pwr_aux.value, r.pwr_prop_out_max.value, -e.pwr_elec_prop_in.value, avail),
+                    det(si, json!({"pwr_prop_out_max": r.pwr_prop_out_max.value, "pwr_elec_prop_in": e.pwr_elec_prop_in.value})));
+            }
         }
     }
     // drivetrain, both directions (signed loss)
@@ -593,8 +606,12 @@ fn publ_edrv_rating(l: &Locomotive) -> f64 {
 
 /// Consist adversarial run, driven exactly like ConsistSimulation::step.
 pub fn run_consist(ctx: &mut Ctx, rng: &mut Rng, steps: usize) {
-    let n = rng.usize(1, 8);
+    let mut n = rng.usize(1, 8);
     let (mut con, kinds) = gp::consist(rng, n);
+    // C08 only: a fifth of the consists have their fleet edited part-way through the run (units set out, or the
+    // whole fleet replaced, through the public drain_loco_vec / set_loco_vec); what the consist has burnt and
+    // delivered so far stays burnt and delivered
+    let reequip_at = if ctx.prop == "C08" && rng.chance(0.2) { Some(rng.usize(steps / 4, (3 * steps / 4).max(steps / 4 + 1))) } else { None };
     if ctx.prop == "C01" || ctx.prop == "C10" {
         if rng.chance(0.12) {
             // a consist first built with other units and then given its real ones (the fleet-editing path of
@@ -620,14 +637,36 @@ pub fn run_consist(ctx: &mut Ctx, rng: &mut Rng, steps: usize) {
         }
     }
     let fixed_dt = if rng.chance(0.5) { Some(1.0f64.min(dt_max)) } else { None };
-    let stats: Vec<Value> = con.loco_vec.iter().map(unit_static).collect();
+    let mut stats: Vec<Value> = con.loco_vec.iter().map(unit_static).collect();
     let mut shadows: Vec<Shadow> = vec![Shadow::default(); n];
     let mut csh = Shadow::default();
     let mut adv = Adversary::new();
     let (mut n_pos, mut n_neg, mut n_rej, mut n_deficit, mut n_regen_def) = (0u64, 0u64, 0u64, 0u64, 0u64);
     let mixed = kinds.iter().any(|k| *k == Kind::Conv) && kinds.iter().any(|k| *k == Kind::Bel);
     for k in 0..steps {
-        let dt = fixed_dt.unwrap_or_else(|| rng.lrange(0.05, dt_max.max(0.051)));
+        if reequip_at == Some(k) {
+            if n > 1 && rng.chance(0.5) {
+                let i = rng.usize(0, n - 1);
+                let _set_out = con.drain_loco_vec(i, i + 1);
+                stats.remove(i);
+                shadows.remove(i);
+                ctx.count("obs.consists_with_a_unit_set_out_mid_run");
+            } else {
+                let n_new = rng.usize(1, 4);
+                let (fresh, _) = gp::consist(rng, n_new);
+                con.set_loco_vec(fresh.loco_vec.clone());
+                stats = con.loco_vec.iter().map(unit_static).collect();
+                shadows = vec![Shadow::default(); con.loco_vec.len()];
+                ctx.count("obs.consists_re-equipped_mid_run");
+            }
+            n = con.loco_vec.len();
+            for l in &con.loco_vec {
+                if let PowertrainType::BatteryElectricLoco(b) = &l.loco_type {
+                    dt_max = dt_max.min(gp::res_dt_max(&b.res));
+                }
+            }
+        }
+        let dt = fixed_dt.map(|d| d.min(dt_max)).unwrap_or_else(|| rng.lrange(0.05, dt_max.max(0.051)));
         let pres: Vec<UnitSnap> = con.loco_vec.iter().map(snap).collect();
         let cpre = con.state;
         con.set_pwr_aux(Some(true)).unwrap();
@@ -788,7 +827,17 @@ fn check_consist(
     ck(ctx, "consist_get_net_energy_res", con.get_net_energy_res().value, echem, RELC, echem_abs.max(eo_abs));
     ck(ctx, "consist_energy_out", cs.energy_out.value, eout, RELC, eo_abs);
     ck(ctx, "consist_energy_pos_neg", cs.energy_out_pos.value - cs.energy_out_neg.value, cs.energy_out.value, RELC, eo_abs);
-    let _ = cpre;
+    // ---- C08: the consist's own cumulative counters never decrease (whatever happens to its fleet between steps)
+    for (name, before, after) in [
+        ("consist.energy_fuel", cpre.energy_fuel.value, cs.energy_fuel.value),
+        ("consist.energy_out_pos", cpre.energy_out_pos.value, cs.energy_out_pos.value),
+        ("consist.energy_out_neg", cpre.energy_out_neg.value, cs.energy_out_neg.value),
+    ] {
+        obs(ctx, "C08", "obs.consist_cumulative_monotone");
+        if !(after >= before) {
+            emit(ctx, "C08", "consist_cumulative_monotone", &format!("C08:decreasing:{name}"), format!("{name} went from {before} J to {after} J in one accepted consist step"), base.clone());
+        }
+    }
 }
 
 fn dispatch_run(ctx: &mut Ctx, rng: &mut Rng, steps: usize, p_unit: f64) {
